@@ -188,6 +188,7 @@ class Builder:
         self.log = []
         self.refusals = []
         self.frame = []
+        self.created = []
 
     def get(self, d, k):
         k = tuple(k) if isinstance(k, list) else k
@@ -229,18 +230,34 @@ class Builder:
         L, t = self.L, self.t
         k = op[0]
         if k == 'node':
-            _, name, ntype, site = op
-            self.nodes[name] = t.add_node(name=name, site=site, ntype=L['NodeType'][ntype])
+            name, ntype, site = op[1:4]
+            nprops = op[4] if len(op) > 4 else []          # properties given AT CREATION: 'image', 'management_ip'
+            kw = {}
+            if 'image' in nprops:
+                kw.update(image_type=self.propval('image_type'), image_ref=self.propval('image_ref'))
+            if 'management_ip' in nprops:
+                kw['management_ip'] = self.propval('management_ip')
+            n = t.add_node(name=name, site=site, ntype=L['NodeType'][ntype], **kw)
+            self.nodes[name] = n
+            self.read_back_node(op, n, ntype, site, nprops)
         elif k == 'facility':
-            _, name, site, nports = op
-            if nports <= 1:
-                self.nodes[name] = t.add_facility(name=name, site=site)
-            else:
-                self.nodes[name] = t.add_facility(name=name, site=site,
-                                                  interfaces=[('%s-i%d' % (name, j), None, None) for j in range(nports)])
+            name, site, nports = op[1:4]
+            nstype = op[4] if len(op) > 4 else None
+            kw = {} if nstype is None else {'nstype': L['ServiceType'][nstype]}
+            if nports > 1:
+                kw['interfaces'] = [('%s-i%d' % (name, j), None, None) for j in range(nports)]
+            n = t.add_facility(name=name, site=site, **kw)
+            self.nodes[name] = n
+            self.read_back_node(op, n, 'Facility', site, [])
+            self.read_back_service(op, t.network_services.get(name + '-ns'), nstype or 'VLAN', None, [])
         elif k == 'switch':
-            _, name, site, nports = op
-            self.nodes[name] = t.add_switch(name=name, site=site, nports=nports)
+            name, site, nports = op[1:4]
+            nstype = op[4] if len(op) > 4 else None
+            kw = {} if nstype is None else {'nstype': L['ServiceType'][nstype]}
+            n = t.add_switch(name=name, site=site, nports=nports, **kw)
+            self.nodes[name] = n
+            self.read_back_node(op, n, 'Switch', site, [])
+            self.read_back_service(op, t.network_services.get(name + '-ns'), nstype or 'P4', None, [])
         elif k == 'comp':
             _, node, cname, model = op
             self.comps[(node, cname)] = self.get(self.nodes, node).add_component(
@@ -250,9 +267,16 @@ class Builder:
             parent = self.iface(['c', node, comp, idx])
             self.subs[(node, comp, idx, sname)] = parent.add_child_interface(name=sname, labels=L['Labels'](vlan=vlan))
         elif k == 'nodens':
-            _, node, nsname, stype = op
-            self.nns[(node, nsname)] = self.get(self.nodes, node).add_network_service(name=nsname, nstype=L['ServiceType'][stype])
-            self.svcs[nsname] = self.nns[(node, nsname)]
+            node, nsname, stype = op[1:4]
+            site = op[4] if len(op) > 4 else None
+            cprops = op[5] if len(op) > 5 else []
+            kw = {p: self.propval(p) for p in cprops}
+            if site is not None:
+                kw['site'] = site
+            ns = self.get(self.nodes, node).add_network_service(name=nsname, nstype=L['ServiceType'][stype], **kw)
+            self.nns[(node, nsname)] = ns
+            self.svcs[nsname] = ns
+            self.read_back_service(op, ns, stype, site, cprops)
         elif k == 'port':
             _, node, nsname, pname, itype = op
             self.ports[(node, nsname, pname)] = self.get(self.nns, (node, nsname)).add_interface(
@@ -271,15 +295,20 @@ class Builder:
             else:
                 n.set_property(prop, self.propval(prop) if on else None)
         elif k == 'svc':
-            _, name, stype, site, refs, via = op
+            name, stype, site, refs, via = op[1:6]
+            cprops = op[6] if len(op) > 6 else []          # constrained properties given AT CREATION
             ifs = [self.iface(r) for r in refs]
-            kw = {} if site is None else {'site': site}
+            kw = {p: self.propval(p) for p in cprops}
+            if site is not None:
+                kw['site'] = site
             if via == 'ctor':
                 self.svcs[name] = self.guarded(lambda: t.add_network_service(
                     name=name, nstype=L['ServiceType'][stype], interfaces=ifs, **kw), 'constructor ' + stype)
+                self.read_back_service(op, self.svcs[name], stype, site, cprops)
             else:
                 s = t.add_network_service(name=name, nstype=L['ServiceType'][stype], **kw)
                 self.svcs[name] = s
+                self.read_back_service(op, s, stype, site, cprops)
                 for i in ifs:
                     self.guarded(lambda: s.connect_interface(i), 'connect_interface ' + stype)
         elif k == 'connect':
@@ -308,11 +337,22 @@ class Builder:
                 self.t.get_parent_element(peers[0]).disconnect_interface(sub)
             parent.remove_child_interface(name=sname)
         elif k == 'mirror':
-            _, name, from_name, ref, site = op
+            name, from_name, ref, site = op[1:5]
+            extra = op[5] if len(op) > 5 else {}            # {'vlan': bool, 'direction': bool, 'props': [...]}
             kw = {} if site is None else {'site': site}
+            declared = ['mirror_port', 'mirror_direction']   # direction defaults to Both
+            if extra.get('vlan'):
+                kw['from_interface_vlan'] = self.propval('mirror_vlan')
+                declared.append('mirror_vlan')
+            if extra.get('direction'):
+                kw['direction'] = L['MirrorDirection'].RX_Only
+            for p in extra.get('props', []):
+                kw[p] = self.propval(p)
+                declared.append(p)
             to_if = self.iface(ref)
             self.svcs[name] = self.guarded(lambda: t.add_port_mirror_service(
                 name=name, from_interface_name=from_name, to_interface=to_if, **kw), 'constructor PortMirror')
+            self.read_back_service(op, self.svcs[name], 'PortMirror', site, declared)
         elif k == 'sprop':
             _, name, prop, on = op
             s = self.get(self.svcs, name)
@@ -334,6 +374,24 @@ class Builder:
             self.get(self.svcs, a).peer(self.get(self.svcs, b))
         else:
             raise Skip('unknown op ' + k)
+
+    def read_back_service(self, op, s, stype, site, cprops):
+        """what was declared at creation is what the service carries right after creation (before any validate())"""
+        if s is None:
+            self.created.append({'op': op, 'declared': [stype, site, sorted(cprops)], 'carried': None})
+            return
+        carried = [str(s.type), s.site if s.site else None, sorted(p for p in SVC_PROPS if s.get_property(p))]
+        declared = [stype, site, sorted(cprops)]
+        if carried != declared:
+            self.created.append({'op': op, 'declared': declared, 'carried': carried})
+
+    def read_back_node(self, op, n, ntype, site, nprops):
+        want = (['image_type', 'image_ref'] if 'image' in nprops else []) + (['management_ip'] if 'management_ip' in nprops else [])
+        carried = [str(n.type), n.site if n.site else None,
+                   sorted(p for p in ('image_type', 'image_ref', 'management_ip') if n.get_property(p))]
+        declared = [ntype, site, sorted(want)]
+        if carried != declared:
+            self.created.append({'op': op, 'declared': declared, 'carried': carried})
 
     def guarded(self, fn, label):
         """run a connecting call; when it is REFUSED (raises) the slice must be exactly what it was before"""
@@ -473,7 +531,7 @@ def run_recipe(ops):
             checkpoint()          # validating again what the last validation left
         last = phases[-2]
         return {'abs': last['abs'], 'res': last['res'], 'sites': last['sites'], 'build': b.log, 'phases': phases,
-                'refusals': b.refusals, 'frame': b.frame}
+                'refusals': b.refusals, 'frame': b.frame, 'created': b.created}
     except Exception as e:     # the extraction itself failed: reported as a harness problem, never hidden
         return {'abs': {'nodes': [], 'services': []}, 'res': 'HARNESS:' + type(e).__name__ + ':' + str(e)[:200],
                 'sites': [], 'build': b.log if b else [], 'phases': [], 'refusals': []}
@@ -633,20 +691,25 @@ def gen_service(w, stype, k, placement, kinds, declared, props, via, name=None):
     name = name or w.name('svc')
     w.svc_refs[name] = list(refs)
     w.svc_type[name] = stype
+    at_creation = getattr(w, 'at_creation', False)
     if stype == 'PortMirror' and 'mirror_api' in props and refs:
-        w.ops.append(['mirror', name, 'port0', refs[0], declared])
-        for r in refs[1:]:
-            pass
+        rest = [p for p in props if p not in ('mirror_api', 'mirror_port', 'mirror_direction')]
+        extra = {'vlan': 'mirror_vlan' in rest, 'direction': w.rng.random() < 0.5,
+                 'props': [p for p in rest if p != 'mirror_vlan'] if at_creation else []}
+        w.ops.append(['mirror', name, 'port0', refs[0], declared, extra])
+        later = [] if at_creation else [p for p in rest if p != 'mirror_vlan']
     else:
-        w.ops.append(['svc', name, stype, declared, refs, via])
-    for p in props:
-        if p != 'mirror_api':
-            w.ops.append(['sprop', name, p, True])
+        plain = [p for p in props if p != 'mirror_api']
+        w.ops.append(['svc', name, stype, declared, refs, via] + ([plain] if at_creation else []))
+        later = [] if at_creation else plain
+    for p in later:
+        w.ops.append(['sprop', name, p, True])
     return name
 
 
 def random_case(rng, size):
     w = World(rng)
+    w.at_creation = rng.random() < 0.5
     sites = SITES[:rng.choice([1, 2, 2, 3, 3, 4])]
     # some background nodes
     for _ in range(rng.randrange(0, 2)):
@@ -816,8 +879,9 @@ def single_defect_cases():
         layer, mn, mx, nsites, ninst, req, forb, rit = PIN_SERVICES[stype]
         k = max(mn, 1)
 
-        def base(kinds=None, placement=None, declared=None, props=None, kk=None, via='ctor'):
+        def base(kinds=None, placement=None, declared=None, props=None, kk=None, via='ctor', at_creation=False):
             w = World(rnd)
+            w.at_creation = at_creation
             n = k if kk is None else kk
             pl = placement or [('A', 'B')[j % 2] if nsites != 1 else 'A' for j in range(n)]
             nm = gen_service(w, stype, n, pl, kinds or ['DedicatedPort'] * n, declared,
@@ -840,7 +904,24 @@ def single_defect_cases():
                 out.append(base(declared='A')[0].ops)                            # declared on a multi-site service
         for p in forb:
             if p in SVC_PROPS:
-                out.append(base(props=(['mirror_api'] if stype == 'PortMirror' else []) + [p])[0].ops)
+                for ac in (False, True):
+                    out.append(base(props=(['mirror_api'] if stype == 'PortMirror' else []) + [p], at_creation=ac)[0].ops)
+        if stype == 'PortMirror':
+            # add_port_mirror_service with every declarable keyword, site agreeing / disagreeing / absent
+            for dsite in (None, 'A', 'B'):
+                out.append(base(declared=dsite, props=['mirror_api', 'mirror_vlan'], at_creation=True)[0].ops)
+            out.append(base(props=['mirror_port', 'mirror_direction'], at_creation=True)[0].ops)   # generic constructor
+            out.append(base(declared='B', props=['mirror_port', 'mirror_direction'], at_creation=True)[0].ops)
+        # the other creation entry points: a node-owned service of this type (site none / agreeing / disagreeing, each
+        # constrained property given at creation), the implicit service of a facility and of a switch
+        for dsite in (None, 'A', 'B'):
+            out.append([['node', 'nd1', 'VM', 'A'], ['nodens', 'nd1', 'nd1-ns', stype, dsite, []],
+                        ['port', 'nd1', 'nd1-ns', 'xp', 'DedicatedPort']])
+        for p in SVC_PROPS:
+            out.append([['node', 'nd1', 'VM', 'A'], ['nodens', 'nd1', 'nd1-ns', stype, None, [p]],
+                        ['port', 'nd1', 'nd1-ns', 'xp', 'DedicatedPort']])
+        out.append([['facility', 'fac1', 'A', 1, stype]])
+        out.append([['switch', 'sw1', 'A', 2, stype]])
         if stype == 'PortMirror':
             out.append(base(props=['mirror_port'])[0].ops)                       # a required property missing
             out.append(base(props=['mirror_direction'])[0].ops)
@@ -863,6 +944,9 @@ def single_defect_cases():
         w, nm = base()
         w.ops.append(['baresp', nm, 'bsp'])                                      # a ServicePort without peer
         out.append(w.ops)
+    for ntype in ['VM', 'Server', 'Container', 'Switch', 'NAS']:
+        for nprops in ([], ['image'], ['management_ip'], ['image', 'management_ip']):
+            out.append([['node', 'nd1', ntype, 'A', nprops]])
     return out
 
 
@@ -1080,6 +1164,9 @@ class Slices(Stream):
             if not r['unchanged']:
                 return ('refusal-changed-slice: %s raised %s but left the slice modified (before %s / after %s)'
                         % (r['call'], r['exception'], json.dumps(r['before'])[:400], json.dumps(r['after'])[:400]))
+        for cr in o.get('created', []):
+            return ('creation-dropped-declaration: %s declared (type, site, properties) %s but the element carries %s right '
+                    'after creation' % (json.dumps(cr['op'])[:300], json.dumps(cr['declared']), json.dumps(cr['carried'])))
         for fr in o.get('frame', []):
             return ('declared-state-changed: %s changed service %s from (type, site, properties) %s to %s; only set_property '
                     'on the service or validate() may do that' % (json.dumps(fr['op']), fr['service'],
